@@ -47,6 +47,11 @@ CHECKS = {
    text="Every face and vertex carries a tag (redundantly in colours / uv and attributes). All meshes with <=2 faces from the complete ordered-face alphabet over 4-5 vertices, in vertex configurations containing exact, near and far duplicates, NaN and inf, go through merge_vertices (option product), update_faces with every boolean and every integer mask up to length 3, update_vertices with every boolean mask, the cleaners, submesh over every index sequence, split+concatenate (both engines) and concatenate; afterwards each surviving face / vertex must have the corner positions and data of the original with its tag, indices must be valid and order preserved.",
    note="Quick tier restricts the first of two faces to 4 representatives; thorough is the full product. Normals tags are checked geometrically (cached normals vs current triangles).",
    design="3.C07"),
+ "C13": dict(level="exploration", engine="E2",
+   technique="bounded-exhaustive enumeration: all short boolean / ternary sequences through every codec, run structures around count-dtype maxima, every boolean array of small shapes x base encodings x every lazy view (compositions of two in thorough) x every read, against numpy / list oracles",
+   text="Run-length codecs and lazy index-map views are index arithmetic whose defects (off-by-one at a dtype maximum, wrong permutation, missing leading zero run) are input-shape features that all occur for sequences of length <=10, <=3 runs around 127/255/511, and arrays of <=8 cells with every flip / transpose / reshape; each is enumerated completely and compared with numpy on the dense array. One defect gives one key: a failing read of a view is reported only if the wrapped encoding answers the same read correctly.",
+   note="Known findings (get_value on lazy views, mask on sparse/flipped/transposed, sparse indices of flat run-length views) are listed in known_findings.json. `gather` and run-length data are only demanded where documented (1D / flat / boolean).",
+   design="3.C13"),
 }
 
 NA = {}
